@@ -25,7 +25,7 @@ for m in _UNIT_MODULES:
 NUMBIGINT_TB = ["ASSUMED contracts of the external crate num-bigint 0.4 (units/_shared/num_bigint.rs): sign, bits (< 2^63), bit, set_bit, checked_add/sub/mul/div, %, <<, >>, unary -, & | ^ (bitwise axioms), From<i32/usize/u8>, TryFrom<&BigInt> for usize/u32, comparisons"]
 REPORT_TB = ["diagn::Report contracts (units/contracts_report.py: error*/warning*/note*/message add one top-level message and count as an error exactly when the top-level kind is Error; push_parent*/pop_parent change only the parent stack; stop_at_errors is Ok iff no top-level Error) are PROVED over the real fields in unit U-report and used as stubs elsewhere; only Report::wrap_in_parents (iterator adapters) stays assumed: the wrapped message has the kind of the outermost parent, or its own kind without parents"]
 
-RESOLVER_TB = ["ASSUMED contracts of unverified customasm code used by U-resolver/U-iterate: asm::resolver::eval / eval_certain ('Err is loud, Ok is clean'), resolve_constant / resolve_instruction / resolve_data_element (the per-item pass contract), ResolveIterator::new/next (flags copied; the yielded node refers to defined items), Value::expect_error_or_bigint / expect_bool, DefList::get_mut (frame), derived PartialEq of expr::Value",
+RESOLVER_TB = ["ASSUMED contracts of unverified customasm code used by U-resolver/U-iterate: asm::resolver::eval / eval_certain ('Err is loud, Ok is clean'), resolve_constant / resolve_instruction (the per-item pass contract), ResolveIterator::new/next (flags copied; the yielded node refers to defined items), Value::expect_error_or_bigint / expect_bool, DefList::get_mut (frame), derived PartialEq of expr::Value",
                "ghost event `ItemDefs::confirmed()` is produced only by resolve_once's stub clause [confirms] (a name for 'a no-guess pass answered Resolved'); termination of resolve_once's loop is not proved"]
 
 ALL_UNITS = ["U-overlap", "U-bigint", "U-constrain", "U-resolver", "U-iterate", "U-bitvec", "U-output", "U-charcount", "U-symbols", "U-rulemap", "U-literal", "U-format", "U-inspect", "U-report"]
@@ -40,7 +40,7 @@ PROPERTIES = {
     "C02": {
         "units": ["U-iterate", "U-resolver", "U-inspect"],
         "claim": "resolve_iteratively returns Ok(n) only after a pass in which guessing was forbidden answered Resolved (the confirming pass), with no later change to the definitions, for every budget; resolve_once answers Resolved only if every per-item resolver did (merge is conjunction) and an unstable item in a last pass is an error; resolve_label / resolve_res / resolve_align / resolve_addr answer Resolved only when the freshly computed value equals the previous one, and report 'did not converge' otherwise in the last pass. The 'statically known' analysis behind the resolved short-cut (is_value_statically_known) answers true only if every sub-expression the expression evaluates is statically known (blocks: all their expressions, asserts included); the nested loop of asm blocks returns only the value of a stable no-guess inner pass.",
-        "not_reached": "that recomputing every instruction selects one unique smallest encoding (resolve_encoding/matcher); resolve_constant, resolve_instruction, resolve_data_element obey the pass contract by assumption; the nested loop in eval_asm",
+        "not_reached": "that recomputing every instruction selects one unique smallest encoding (resolve_encoding/matcher); resolve_constant and resolve_instruction obey the pass contract by assumption (resolve_data_element, resolve_label/res/align/addr/assert are proved); eval_asm::resolve_once",
         "trusted_base": NUMBIGINT_TB + REPORT_TB + RESOLVER_TB,
     },
     "C03": {
@@ -92,9 +92,9 @@ PROPERTIES = {
         "trusted_base": NUMBIGINT_TB + REPORT_TB + RESOLVER_TB,
     },
     "C04": {
-        "units": ["U-bigint", "U-constrain"],
-        "claim": "For every integer v and every width N >= 1: check_and_constrain_argument returns Integer(v) with size Some(N) exactly when v is in the range the property states for uN/sN/iN, and FailedConstraint otherwise; the value is never changed. BigInt::min_size equals the minimal two's-complement width (proved against a recursive bit-length spec, with the lemma min_size(v) <= N <=> -2^(N-1) <= v < 2^N); BigInt::slice keeps exactly the named bits (low N bits for slice(N,0)).",
-        "not_reached": "parsing of the type names (interpret_typename, string code); resolve_data_element (sits on eval); that a FailedConstraint argument always fails the instruction: resolve_instruction_match_inner ignores it when the production never reads the parameter (finding D17, outside the verified set); width 0 (known finding D7).",
+        "units": ["U-bigint", "U-constrain", "U-resolver"],
+        "claim": "For every integer v and every width N >= 1: check_and_constrain_argument returns Integer(v) with size Some(N) exactly when v is in the range the property states for uN/sN/iN, and FailedConstraint otherwise; the value is never changed. BigInt::min_size equals the minimal two's-complement width (proved against a recursive bit-length spec, with the lemma min_size(v) <= N <=> -2^(N-1) <= v < 2^N); BigInt::slice keeps exactly the named bits (low N bits for slice(N,0)). Data directives: resolve_data_element, in a last pass, stores for a directive of width N an encoding of size N that holds exactly the N low bits of a value whose size (declared, or minimal two's-complement width) is at most N - a wider value is an error, never cut.",
+        "not_reached": "parsing of the type names (interpret_typename, string code) and of #dN; that a FailedConstraint argument always fails the instruction (resolve_instruction_match_inner uses iter().enumerate(): outside the verified set; defect D17 there was repaired, replay only); that resolve_data_element accepts EVERY value that fits (only soundness of acceptance is stated); width 0 (known finding D7).",
         "trusted_base": NUMBIGINT_TB + REPORT_TB,
     },
     "C05": {
